@@ -291,12 +291,17 @@ Decides on the trace alone (with the rig's lifecycle as the reference for what a
 * frames read from the supply lane are the supplied items in order, exactly once each, a sync answered by a bare
   `synced` — the monitor keeps what is owed, like `Sup.Mon`, but cannot see the order between an owed sync and owed
   items (decided inside the agent), so it accepts either the oldest owed sync or the oldest owed item;
-* a frame read from the command lane is an echo of a command that was handled and not older than the last echo. -/
+* a frame read from the command lane is an echo of a command that was handled and not older than the last echo;
+* when the harness reads (the agent has settled) and something is owed, a frame must be there — nothing is stranded
+  inside the lane (`C14_agent_supply_never_stranded`). -/
 
 structure Mon where
   owedItems : List Nat := []
   owedSync : List Nat := []
-  handled : List Nat := []      -- invocations since the last echo read, oldest first
+  -- invocations since the last echo read, oldest first. Values may repeat, so which invocation an echo belongs to
+  -- can be ambiguous: `handled` is the most that can still be un-echoed, `handledMin` the least.
+  handled : List Nat := []
+  handledMin : List Nat := []
   deriving Repr
 
 def expectedLog (v : Nat) : List Entry :=
@@ -304,10 +309,14 @@ def expectedLog (v : Nat) : List Entry :=
     | some u => [.inv u] ++ (rigHandler.pushes u).map .push
     | none => []) ++ (rigHandler.pushes v).map .push
 
-/-- drop the prefix of `l` up to and including the first `v`; `none` if `v` is not there -/
-def dropThrough (v : Nat) : List Nat → Option (List Nat)
+/-- drop the prefix of `l` up to and including the FIRST `v`; `none` if `v` is not there -/
+def dropThroughFirst (v : Nat) : List Nat → Option (List Nat)
   | [] => none
-  | x :: rest => if x = v then some rest else dropThrough v rest
+  | x :: rest => if x = v then some rest else dropThroughFirst v rest
+
+/-- drop the prefix of `l` up to and including the LAST `v` (everything if `v` is not there) -/
+def dropThroughLast (v : Nat) (l : List Nat) : List Nat :=
+  if l.contains v then (l.reverse.takeWhile (fun x => !(x == v))).reverse else []
 
 def Mon.step (m : Mon) (line : String) (out : String) : Mon × Option String :=
   match words out with
@@ -322,7 +331,8 @@ def Mon.step (m : Mon) (line : String) (out : String) : Mon × Option String :=
       | "c", .ok v =>
         let e := expectedLog v
         if hv = renderLog e then
-          ({ m with owedItems := m.owedItems ++ pushedItems e, handled := m.handled ++ invoked e }, none)
+          ({ m with owedItems := m.owedItems ++ pushedItems e, handled := m.handled ++ invoked e,
+                    handledMin := m.handledMin ++ invoked e }, none)
         else if hv = "-" then (m, some "command-handler-not-invoked")
         else (m, some "command-handler-invoked-wrongly")
       | _, _ => if hv = "-" then (m, none) else (m, some "command-handler-invoked-without-command")
@@ -331,7 +341,9 @@ def Mon.step (m : Mon) (line : String) (out : String) : Mon × Option String :=
       else if l = "s" then ({ m with owedSync := m.owedSync ++ [r.toNat?.getD 0] }, none) else (m, none)
     | ["read", "s"] =>
       if hv ≠ "-" then (m, some "command-handler-invoked-without-command")
-      else if fv = "-" then (m, none)
+      else if fv = "-" then
+        -- the runtime has settled: whatever is owed must have a write in flight (or be in the channel)
+        (if m.owedItems.isEmpty && m.owedSync.isEmpty then (m, none) else (m, some "supply-item-stranded-in-lane"))
       else
         match m.owedSync, m.owedItems with
         | r :: rs, a :: as =>
@@ -346,13 +358,13 @@ def Mon.step (m : Mon) (line : String) (out : String) : Mon × Option String :=
         | [], [] => (m, some "supply-frame-from-nothing")
     | ["read", "c"] =>
       if hv ≠ "-" then (m, some "command-handler-invoked-without-command")
-      else if fv = "-" then (m, none)
+      else if fv = "-" then (if m.handledMin.isEmpty then (m, none) else (m, some "command-echo-missing"))
       else
         match (fv.drop 3).toString.toNat? with
         | some v =>
           if (fv.take 3).toString = "ev:" then
-            match dropThrough v m.handled with
-            | some rest => ({ m with handled := rest }, none)
+            match dropThroughFirst v m.handled with
+            | some rest => ({ m with handled := rest, handledMin := dropThroughLast v m.handledMin }, none)
             | none => (m, some "command-echo-of-nothing-handled")
           else (m, some "unparsable")
         | none => (m, some "unparsable")
